@@ -425,6 +425,139 @@ func runC18(r *Rng, n int, tier string) {
 		files := map[string]string{"schema/a.sql": okSchema, "queries/q.sql": okQuery, "sqlc.json": conf}
 		emit(c18GenCase(next("fs"), files, []string{"fs:" + c.tag}, nil, c.prep))
 	}
+	// ---- gen: schema histories. Every DDL statement kind the catalog interprets, alone and in sequences, with
+	// several actions per ALTER TABLE, on existing and on missing objects
+	venue := map[string]string{
+		"postgresql": "CREATE TABLE venue (id bigint NOT NULL, legacy text, name text, slug text NOT NULL, dropped int);\n",
+		"mysql":      "CREATE TABLE venue (id bigint NOT NULL, legacy text, name varchar(50), slug varchar(50) NOT NULL, dropped int);\n",
+	}
+	vcols := []string{"id", "legacy", "name", "slug", "dropped", "added", "nosuch"}
+	ddlZoo := map[string][]string{
+		"postgresql": {
+			"ALTER TABLE venue DROP COLUMN legacy, DROP COLUMN dropped",
+			"ALTER TABLE venue DROP COLUMN legacy, ALTER COLUMN name SET NOT NULL",
+			"ALTER TABLE venue DROP COLUMN id, DROP COLUMN legacy, DROP COLUMN name, DROP COLUMN slug, DROP COLUMN dropped",
+			"ALTER TABLE venue ADD COLUMN added int, DROP COLUMN added",
+			"ALTER TABLE venue DROP COLUMN dropped, ADD COLUMN dropped text, ALTER COLUMN dropped SET NOT NULL",
+			"ALTER TABLE venue ALTER COLUMN slug DROP NOT NULL, ALTER COLUMN slug TYPE int, DROP COLUMN slug",
+			"ALTER TABLE venue DROP COLUMN IF EXISTS nosuch, DROP COLUMN dropped",
+			"ALTER TABLE venue RENAME COLUMN dropped TO kept; ALTER TABLE venue DROP COLUMN kept, DROP COLUMN legacy",
+			"ALTER TABLE venue RENAME TO place; ALTER TABLE place DROP COLUMN legacy, DROP COLUMN dropped",
+			"ALTER TABLE venue SET SCHEMA public",
+			"CREATE SCHEMA s; ALTER TABLE venue SET SCHEMA s; ALTER TABLE s.venue DROP COLUMN legacy, DROP COLUMN dropped",
+			"DROP TABLE venue; DROP TABLE IF EXISTS venue",
+			"CREATE TYPE v AS ENUM ('a'); ALTER TYPE v ADD VALUE 'b' BEFORE 'a'; ALTER TYPE v ADD VALUE IF NOT EXISTS 'b'; ALTER TYPE v RENAME VALUE 'a' TO 'c'; DROP TYPE v",
+			"COMMENT ON TABLE venue IS 'x'; COMMENT ON COLUMN venue.name IS 'y'; COMMENT ON COLUMN venue.nosuch IS 'z'",
+			"CREATE TABLE venue2 (LIKE venue); ALTER TABLE venue2 DROP COLUMN legacy, DROP COLUMN dropped",
+			"CREATE TABLE child () INHERITS (venue); ALTER TABLE child DROP COLUMN legacy, DROP COLUMN dropped",
+			"CREATE TABLE part (id int, k int) PARTITION BY RANGE (k); CREATE TABLE part1 PARTITION OF part FOR VALUES FROM (0) TO (10)",
+			"DROP FUNCTION IF EXISTS nosuch(int); DROP FUNCTION plus(int, int); DROP FUNCTION plus(int, int)",
+			"DROP SCHEMA public; CREATE TABLE t9 (id int)",
+			"CREATE TABLE venue (id int)",
+			"ALTER TABLE nosuch DROP COLUMN a, DROP COLUMN b",
+			"ALTER TABLE IF EXISTS nosuch DROP COLUMN a, DROP COLUMN b",
+		},
+		"mysql": {
+			"ALTER TABLE venue DROP COLUMN legacy, DROP COLUMN dropped",
+			"ALTER TABLE venue DROP COLUMN legacy, MODIFY COLUMN name varchar(10) NOT NULL",
+			"ALTER TABLE venue DROP COLUMN legacy, CHANGE COLUMN dropped kept bigint",
+			"ALTER TABLE venue ADD COLUMN added int, DROP COLUMN added",
+			"ALTER TABLE venue ADD COLUMN added int FIRST, ADD COLUMN added2 int AFTER id, DROP COLUMN dropped",
+			"ALTER TABLE venue RENAME COLUMN dropped TO kept, DROP COLUMN legacy",
+			"ALTER TABLE venue DROP COLUMN legacy, RENAME COLUMN dropped TO kept",
+			"ALTER TABLE venue RENAME TO place; ALTER TABLE place DROP COLUMN legacy, DROP COLUMN dropped",
+			"RENAME TABLE venue TO place, authors TO writers",
+			"CREATE TABLE venue2 LIKE venue; ALTER TABLE venue2 DROP COLUMN legacy, DROP COLUMN dropped",
+			"DROP TABLE venue; DROP TABLE IF EXISTS venue",
+			"ALTER TABLE nosuch DROP COLUMN a, DROP COLUMN b",
+			"ALTER TABLE venue DROP COLUMN nosuch, DROP COLUMN dropped",
+			"ALTER TABLE venue MODIFY COLUMN nosuch int",
+			"ALTER TABLE venue CHANGE COLUMN nosuch other int",
+			"CREATE TABLE venue (id int)",
+		},
+	}
+	for _, eng := range []string{"postgresql", "mysql"} {
+		q := "-- name: V :many\nSELECT 1;\n"
+		for _, st := range ddlZoo[eng] {
+			files := map[string]string{"schema.sql": c18Schema[eng] + venue[eng] + st + ";\n", "query.sql": q, "sqlc.json": fmt.Sprintf(`{"version":"1","packages":[{"path":"db","engine":"%s","schema":"schema.sql","queries":"query.sql"}]}`, eng)}
+			emit(c18GenCase(next("ddl"), files, []string{"ddl:zoo", eng}, nil, nil))
+		}
+	}
+	for i := 0; i < n/2; i++ {
+		eng := "postgresql"
+		if r.Chance(35) {
+			eng = "mysql"
+		}
+		var stmts []string
+		how := "ddl:multi-action"
+		if eng == "postgresql" && r.Chance(40) {
+			// the catalog property's own history generator, as schema text
+			g := NewDDLGen(r.Fork())
+			g.Wild = 5 + r.Intn(30)
+			stmts = append(stmts, strings.TrimSuffix(strings.TrimSpace(historySQL(guidedHistory(g, r, 3+r.Intn(20), 6))), ";"))
+			how = "ddl:history"
+		} else {
+			live := []string{"id", "legacy", "name", "slug", "dropped"}
+			fresh := 0
+			pick := func() (string, int) { // a column of the table as it is now (mostly), or a name it does not have
+				if len(live) == 0 || r.Chance(12) {
+					return r.Pick(vcols), -1
+				}
+				k := r.Intn(len(live))
+				return live[k], k
+			}
+			for k := 0; k < 1+r.Intn(3); k++ {
+				var acts []string
+				for a := 0; a < 1+r.Intn(4); a++ {
+					c, at := pick()
+					switch r.Intn(6) {
+					case 0, 1:
+						acts = append(acts, "DROP COLUMN "+c)
+						if at >= 0 {
+							live = append(append([]string{}, live[:at]...), live[at+1:]...)
+						}
+					case 2:
+						fresh++
+						nc := fmt.Sprintf("added%d", fresh)
+						acts = append(acts, "ADD COLUMN "+nc+" int")
+						live = append(live, nc)
+					case 3:
+						if eng == "mysql" {
+							acts = append(acts, "MODIFY COLUMN "+c+" bigint NOT NULL")
+						} else {
+							acts = append(acts, "ALTER COLUMN "+c+" SET NOT NULL")
+						}
+					case 4:
+						if eng == "mysql" {
+							fresh++
+							nc := fmt.Sprintf("changed%d", fresh)
+							acts = append(acts, "CHANGE COLUMN "+c+" "+nc+" text")
+							if at >= 0 {
+								live[at] = nc
+							}
+						} else {
+							acts = append(acts, "ALTER COLUMN "+c+" TYPE text")
+						}
+					default:
+						if eng == "mysql" {
+							fresh++
+							nc := fmt.Sprintf("renamed%d", fresh)
+							acts = append(acts, "RENAME COLUMN "+c+" TO "+nc)
+							if at >= 0 {
+								live[at] = nc
+							}
+						} else {
+							acts = append(acts, "ALTER COLUMN "+c+" DROP NOT NULL")
+						}
+					}
+				}
+				stmts = append(stmts, "ALTER TABLE venue "+strings.Join(acts, ", "))
+			}
+		}
+		files := map[string]string{"schema.sql": c18Schema[eng] + venue[eng] + strings.Join(stmts, ";\n") + ";\n", "query.sql": "-- name: V :many\nSELECT 1;\n",
+			"sqlc.json": fmt.Sprintf(`{"version":"1","packages":[{"path":"db","engine":"%s","schema":"schema.sql","queries":"query.sql"}]}`, eng)}
+		emit(c18GenCase(next("ddl"), files, []string{how, eng}, nil, nil))
+	}
 	// ---- gen: byte strings and mutated projects
 	goodConf := `{"version":"1","packages":[{"path":"db","engine":"%s","schema":"schema.sql","queries":"query.sql"}]}`
 	for i := 0; i < n; i++ {
